@@ -62,6 +62,8 @@ type Case struct {
 	Events []Event    `json:"events"`
 	// Dup (dupid_test.go): an operation id handed in twice while unanswered
 	Dup *Dup `json:"dup,omitempty"`
+	// ReSess (resess_test.go): a second session on the same client after Reset
+	ReSess *ReSess `json:"resess,omitempty"`
 }
 
 func setup() {
@@ -316,6 +318,9 @@ func diff(got, want []uint64) (extra, missing []uint64) {
 func runCase(c Case) *ev.Verdict {
 	if c.Dup != nil {
 		return runDup(c)
+	}
+	if c.ReSess != nil {
+		return runReSess(c)
 	}
 	v := &ev.Verdict{}
 	stub := &cstub.Stub{}
@@ -882,12 +887,22 @@ func TestCampaign(t *testing.T) {
 			col.Check(rt, ev.JSON(c), v)
 		})
 	})
+	t.Run("second-session-after-reset", func(t *testing.T) {
+		rapid.Check(t, func(rt *rapid.T) {
+			if rapid.IntRange(0, 3).Draw(rt, "run?") != 0 {
+				return
+			}
+			c := drawReSess(rt)
+			v := runCase(c)
+			col.Check(rt, ev.JSON(c), v)
+		})
+	})
 	col.MinimizeAll(func(sig string, cs []byte) []byte {
 		var c Case
 		if err := json.Unmarshal(cs, &c); err != nil {
 			return nil
 		}
-		if c.Dup != nil {
+		if c.Dup != nil || c.ReSess != nil {
 			return cs
 		}
 		try := func(cc Case) bool {
